@@ -221,7 +221,7 @@ def prog3 : List (List Call) :=
     event 0, thread 2 swaps out [1]; the producer enqueues 2; thread 1 dispatches 0; thread 2
     declines 1 and puts it back in front of 2; both finish their first call -/
 def sched1 : List (Tid × Nat) :=
-  rep 0 10 ++ rep 1 3 ++ rep 2 3 ++ rep 1 1 ++ rep 2 1 ++ rep 0 5 ++ rep 1 1 ++ rep 2 4 ++ rep 1 2
+  rep 0 10 ++ rep 1 3 ++ rep 2 3 ++ rep 1 1 ++ rep 2 1 ++ rep 0 5 ++ rep 1 1 ++ rep 2 6 ++ rep 1 2
 
 /-- the point where both consumers hold an event locally and the producer is mid-`enqueue` -/
 def schedMid : List (Tid × Nat) := rep 0 10 ++ rep 1 3 ++ rep 2 3 ++ rep 1 1 ++ rep 2 1 ++ rep 0 2
